@@ -35,6 +35,10 @@ FAM_THOROUGH = [
     ("two33h2",  "S_Two33H2",  1, '{"all"}',              6),
     ("two43h2",  "S_Two43H2",  1, '{"of", "if", "alt"}',  6),
 ]
+# documents of 2-3 relations sharing ways (MultipolygonDocs.tla): keep one case in `every` per family
+DOC_EVERY_QUICK = {"adj33": 1, "adj44": 4, "isl33": 2, "both333": 6}
+DOC_EVERY_THOROUGH = {"adj33": 2, "adj44": 1, "adj54": 4, "adj43h": 1, "isl33": 1, "isl44": 1, "both333": 2, "both434": 2}
+
 MC_QUICK = ["Multipolygon_mc_q1.cfg", "Multipolygon_mc_q2.cfg", "Multipolygon_same_q.cfg", "Multipolygon_live_q.cfg"]
 MC_THOROUGH = ["Multipolygon_mc_t1.cfg", "Multipolygon_mc_t2.cfg", "Multipolygon_mc_t2b.cfg", "Multipolygon_mc_t3.cfg", "Multipolygon_mc_t4.cfg",
                "Multipolygon_same_t.cfg", "Multipolygon_space_b.cfg", "Multipolygon_live_t.cfg"]
@@ -76,6 +80,21 @@ def gen_sim(ctx, n):
     cases = vlib.tlc_gen(ctx, GEN, cfgname, files={cfgname: GEN_CFG % ("S_Big", 4, '{"all"}', "EmitSim")}, workers=1,
                          count_states=False, args=("-simulate", "num=%d" % n, "-depth", "200", "-seed", str(ctx.seed)))
     return "sim", len(cases), _parse(cases)
+
+
+def gen_docs(ctx):
+    cfg = "MultipolygonDocs_quick.cfg" if ctx.quick() else "MultipolygonDocs_thorough.cfg"
+    every = DOC_EVERY_QUICK if ctx.quick() else DOC_EVERY_THOROUGH
+    allc = [json.loads(u) for u in sorted({json.dumps(c, sort_keys=True) for c in _parse(
+        vlib.tlc_gen(ctx, "MultipolygonDocs", cfg, workers=1, count_states=False))})]
+    out, count = [], {}
+    for c in allc:
+        sp = c["doc"]["spec"]
+        i = count.get(sp, 0)
+        count[sp] = i + 1
+        if i % every.get(sp, 1) == ctx.seed % every.get(sp, 1):
+            out.append(c)
+    return [("doc-" + sp, n, [c for c in out if c["doc"]["spec"] == sp]) for sp, n in sorted(count.items())]
 
 
 def execute(ctx, cases):
@@ -134,14 +153,16 @@ def run(ctx):
 
     # ---- cases
     with cf.ThreadPoolExecutor(max_workers=6) as ex:
+        docs = ex.submit(gen_docs, ctx)
         parts = list(ex.map(lambda f: gen_family(ctx, f), fams))
+        parts += docs.result()
     parts.append(gen_sim(ctx, 300 if quick else 3000))
     cases, famstat = [], {}
     for name, total, cs in parts:
         famstat[name] = {"enumerated": total, "executed": len(cs)}
         cases += cs
     for r in ctx.tlc_runs:
-        if r["module"] == GEN:
+        if r["module"] in (GEN, "MultipolygonDocs"):
             ctx.states += r["distinct"]
             ctx.transitions += r["generated"]
     vlib.log("C16: %d cases (%s)" % (len(cases), ", ".join("%s=%d" % (k, v["executed"]) for k, v in famstat.items())))
@@ -180,7 +201,9 @@ def run(ctx):
     ctx.exhaustive = all(v["enumerated"] == v["executed"] for k, v in famstat.items() if k != "sim")
     ctx.rule = ("cases = completed member lists of the generating machine of Multipolygon.tla (every cut into 1..MaxPieces ways, "
                 "every reversal subset, every member order / the stated interleavings) for the families in coverage.families, "
-                "plus `sim` sampled by TLC -simulate from larger shapes; each case is executed with both coordinate sources x orientation masks none / all, a partial mask (separate nodes), "
+                "plus `sim` sampled by TLC -simulate from larger shapes, plus `doc-*`: documents of 2-3 relations sharing ways "
+                "(MultipolygonDocs.tla: adjacent areas with a common border way, an island whose outer ring is the other relation's "
+                "hole; every way direction, member order and relation order), one case per observed relation; each case is executed with both coordinate sources x orientation masks none / all, a partial mask (separate nodes), "
                 "annotate.Relations and the conversion of the relation it annotated; distinct = distinct abstract "
                 "cases; non-trivial = some ring cut into several ways or some way reversed")
     ctx.assumptions = [
